@@ -8,6 +8,12 @@ CHECKS = {
         "text": "Every query tree up to the stated depth over a universe corpus that realises every posting-list alignment for D<=4..5 documents, on every segment composition / deletion set, through every access path, is compared with an independent set-semantics evaluator. Complete within the bound; says nothing about larger documents counts or deeper trees.",
         "note": "Trusted: the reference evaluator in mc/qast.py (documented meaning), identification of documents by stored key. Bounds: D<=5 documents, tree depth<=2, block size 1-2.",
     },
+    "C05": {
+        "engine": "E1", "level": "exploration",
+        "technique": "bounded-exhaustive enumeration of query trees x posting-list alignments x k x weighting models x block sizes x layouts, differential against the exhaustive ranking of the same searcher",
+        "text": "Every binary operator over all 64x64 posting-list alignments of a 6-document universe corpus with 1-3 postings per block (so block skipping and matcher replacement engage, which is measured), 3-leaf/nested/boosted/special-leaf trees over 12 representative alignments, k=1..5, eight weighting configurations, filter/mask/collapse/terms variants: the limited search must equal the prefix of the unlimited one. Complete within those bounds.",
+        "note": "Trusted: search(limit=None) as the reference ranking (its own correctness is C01/C09), float tolerance 1e-9. Bounds: 6 documents, depth<=2.",
+    },
 }
 
 NOT_APPLICABLE = {}
